@@ -922,6 +922,15 @@ func (m *Machine) obligation(kind, msg, where string, bad *term.Term) bool {
 	}
 	if r == solver.Unknown && !m.FreshFirst {
 		r = m.check(bad, m.FeasTimeoutMs)
+		if r == solver.Unknown && !term.Compile(append(append([]*term.Term{}, m.pc...), bad)...).Hard() {
+			// a large but easy query (bit shuffling, comparisons) that missed the short limit on a busy
+			// machine: give the same session a long limit before falling back to fresh solvers
+			lim := int(m.OblTimeout.Milliseconds())
+			if lim < 120_000 {
+				lim = 120_000
+			}
+			r = m.check(bad, lim)
+		}
 		if r == solver.Sat {
 			for i := len(m.models) - 1; i >= 0; i-- {
 				if m.modelSatisfies(m.models[i], bad) {
